@@ -2211,6 +2211,33 @@ def _always_handed_named_function(m, fn, param: str) -> bool:
     return True
 
 
+def _decorates_defs_only(repo, m, hfn) -> bool:
+    """``hfn`` is a module-level decorator, or the function a module-level decorator factory returns, and every mention of that
+    decorator (factory) in the repository is in the decorator list of a ``def``."""
+    outer = None
+    for f_ in m.tree.body:
+        if isinstance(f_, ast.FunctionDef) and (f_ is hfn or (any(d_ is hfn for d_ in f_.body) and any(
+                isinstance(r_, ast.Return) and isinstance(r_.value, ast.Name) and r_.value.id == hfn.name for r_ in f_.body))):
+            outer = f_
+    if outer is None:
+        return False
+    n_uses = 0
+    for mm in repo.modules.values():
+        deco_nodes = set()
+        for d in ast.walk(mm.tree):
+            if isinstance(d, (ast.FunctionDef, ast.AsyncFunctionDef)):
+                for dx in d.decorator_list:
+                    head = dx.func if isinstance(dx, ast.Call) else dx
+                    for z in ast.walk(head):
+                        deco_nodes.add(id(z))
+        for z in ast.walk(mm.tree):
+            if ((isinstance(z, ast.Name) and z.id == outer.name) or (isinstance(z, ast.Attribute) and z.attr == outer.name)) and isinstance(getattr(z, "ctx", None), ast.Load):
+                if id(z) not in deco_nodes:
+                    return False
+                n_uses += 1
+    return n_uses > 0
+
+
 def rule_OH(run: Run) -> RuleResult:
     """Values a user supplies as dispatch aliases are only hashable: nothing may put them in order."""
     res = RuleResult("R-OH")
@@ -2342,6 +2369,10 @@ def rule_OH(run: Run) -> RuleResult:
             # a parameter of a private module-level helper that every call in the module hands a named function (a builtin, a function or
             # class defined in the module): those carry their names
             if cls_node is None and hfn.name.startswith("_") and isinstance(x.value, ast.Name) and _always_handed_named_function(m, hfn, base):
+                continue
+            # the function a decorator (factory) of the library's own is applied to: when every use of the enclosing function in the
+            # repository is as the decorator of a ``def``, the parameter of the function it hands back is a def'd function
+            if isinstance(x.value, ast.Name) and x.value.id in {a_.arg for a_ in hfn.args.posonlyargs + hfn.args.args} and _decorates_defs_only(repo, m, hfn):
                 continue
             # inside try/except AttributeError
             pm_ = astu.parent_map(hfn)
